@@ -466,6 +466,109 @@ func c04Windows(c *core.Ctx) {
 		c04Body(k, e, abs.PTSi, body, "ts/three-selectors/cnt="+smallCell(cnt), true)
 		c04Body(k, e, abs.PTSr, body, "ts/three-selectors/cnt="+smallCell(cnt), true)
 	})
+	// nested, type-specific structures: for every sub-type value the library (or the protocols it serves) gives a
+	// meaning to, a short body whose octets are swept one at a time over small counts / lengths around the body
+	// size; bases are (a) a body of the shape the sub-type calls for, (b) all octets equal to the body length,
+	// (c) first octet = length, rest small.  Any octet may be a nested length or count field.
+	nestedTypes := []int{1, 4, 5, 7, 9, 11, 14, 17, 24, 34, 35, 36, 37, 38, 39, 40, 41, 42, 43, 44}
+	for t := 16384; t <= 16402; t++ {
+		nestedTypes = append(nestedTypes, t)
+	}
+	for t := 55501; t <= 55506; t++ {
+		nestedTypes = append(nestedTypes, t)
+	}
+	c.Family("win-nested-notify", len(nestedTypes)*3, func(k *core.Case) {
+		e := env(k)
+		typ := nestedTypes[k.Index/3]
+		var base []byte
+		switch k.Index % 3 {
+		case 0:
+			base = gen.NotifyData(k.R, uint16(typ))
+			if len(base) > 12 {
+				base = base[:12]
+			}
+		case 1:
+			base = make([]byte, k.R.Pick(3, 4, 5, 6, 8))
+			for i := range base {
+				base[i] = byte(len(base))
+			}
+		default:
+			base = k.R.Bytes(k.R.Pick(4, 5, 7, 9))
+			for i := range base {
+				base[i] &= 3
+			}
+			base[0] = byte(len(base))
+		}
+		L := len(base)
+		vals := []int{0, 1, 2, 3, 4, 5, 6, 7, 8, L - 3, L - 2, L - 1, L, L + 1, L + 2, 16, 63, 64, 127, 128, 254, 255}
+		probe := func(data []byte, cell string, deep bool) {
+			body := append([]byte{byte(k.R.Pick(0, 1, 3)), 0, byte(typ >> 8), byte(typ)}, data...)
+			c04Body(k, e, abs.PNotify, body, cell, deep)
+		}
+		probe(base, fmt.Sprintf("nested-notify/t=%d/base", typ), true)
+		for cut := 0; cut < L; cut++ {
+			probe(base[:cut], fmt.Sprintf("nested-notify/t=%d/prefix", typ), false)
+		}
+		for i := 0; i < L; i++ {
+			for _, v := range vals {
+				if v < 0 || v > 255 {
+					continue
+				}
+				d := append([]byte{}, base...)
+				d[i] = byte(v)
+				probe(d, fmt.Sprintf("nested-notify/t=%d/oct%d=%s", typ, minI(i, 6), smallCell(v)), i == 2 && v == L)
+			}
+		}
+		k.Count("nested_notify_types_swept", 1)
+	})
+	// the same for identification types, configuration attribute types, certificate encodings, authentication
+	// methods and EAP method types / expanded vendor types
+	c.Family("win-nested-other", 96, func(k *core.Case) {
+		e := env(k)
+		sub := byte(k.Index % 16)
+		L := k.R.Pick(3, 4, 5, 8)
+		base := make([]byte, L)
+		for i := range base {
+			base[i] = byte(L)
+		}
+		if k.R.Bool() {
+			base = k.R.Bytes(L)
+			for i := range base {
+				base[i] &= 7
+			}
+			base[0] = byte(L)
+		}
+		vals := []int{0, 1, 2, 3, 4, 5, L - 1, L, L + 1, 16, 17, 63, 64, 128, 255}
+		for i := 0; i < L; i++ {
+			for _, v := range vals {
+				d := append([]byte{}, base...)
+				d[i] = byte(v)
+				cellS := fmt.Sprintf("sub=%d/oct%d=%s", sub, minI(i, 6), smallCell(v))
+				switch k.Index / 16 {
+				case 0: // ID: type, 3 reserved, data
+					c04Body(k, e, abs.PIDi, append([]byte{sub, 0, 0, 0}, d...), "nested-id/"+cellS, false)
+					c04Body(k, e, abs.PIDr, append([]byte{sub, 0, 0, 0}, d...), "nested-id/"+cellS, false)
+				case 1: // CP: cfg type, 3 reserved, attribute (type = sub, length consistent), then a second attribute header
+					at := append([]byte{0, sub, 0, byte(L)}, d...)
+					c04Body(k, e, abs.PCP, append([]byte{byte(1 + k.Index%4), 0, 0, 0}, at...), "nested-cp/"+cellS, i == 0 && v == L)
+				case 2:
+					c04Body(k, e, abs.PCERT, append([]byte{sub}, d...), "nested-cert/"+cellS, false)
+					c04Body(k, e, abs.PCERTREQ, append([]byte{sub}, d...), "nested-certreq/"+cellS, false)
+				case 3:
+					c04Body(k, e, abs.PAUTH, append([]byte{sub, 0, 0, 0}, d...), "nested-auth/"+cellS, false)
+					c04Body(k, e, abs.PKE, append([]byte{0, []byte{2, 14, 5, 19}[sub%4], 0, 0}, d...), "nested-ke/"+cellS, false)
+				case 4: // EAP: code, id, length, method type, data
+					mt := []byte{1, 2, 3, 4, 13, 23, 50, 254, 255}[int(sub)%9]
+					pkt := append([]byte{byte(1 + sub%2), 7, 0, byte(5 + L), mt}, d...)
+					c04Body(k, e, abs.PEAP, pkt, "nested-eap/"+cellS, i == 0 && v == L)
+				default: // EAP expanded, vendor 3GPP (10415), vendor type 3: message id, spare, NAS length, NAS PDU
+					pkt := append([]byte{byte(1 + sub%2), 7, 0, byte(12 + L), 254, 0x00, 0x28, 0xaf, 0, 0, 0, byte(sub % 5)}, d...)
+					c04Body(k, e, abs.PEAP, pkt, "nested-eap-expanded/"+cellS, i == 0 && v == L)
+				}
+			}
+		}
+		k.Count("nested_other_swept", 1)
+	})
 	// KE / ID / AUTH / CERT / CERTREQ / Nonce / Vendor / SK: remaining 0..8
 	c.Family("win-simple", 9*10, func(k *core.Case) {
 		e := env(k)
@@ -928,7 +1031,7 @@ func c04(c *core.Ctx) {
 		c.Count("hook_hits_"+s, int(atomic.LoadInt64(&siteHits[i])))
 	}
 	if variant() == "plain" {
-		c.Require("hook_hits_message.container.decode", "hook_hits_message.sa.proposal", "hook_hits_message.sa.transform", "hook_hits_message.delete.spi",
+		c.Require("nested_notify_types_swept", "nested_other_swept", "hook_hits_message.container.decode", "hook_hits_message.sa.proposal", "hook_hits_message.sa.transform", "hook_hits_message.delete.spi",
 			"hook_hits_message.cp.attribute", "hook_hits_message.tsi.selector", "hook_hits_message.tsr.selector", "hook_hits_eap.akaprime.attribute", "hook_hits_ike.decrypt.verified")
 	}
 }
